@@ -65,11 +65,24 @@ def check_scale(ctx):
                   e.loc(), fi.qualname, f"loc:{tag}")
         ok_size = isinstance(size, Tup) and len(size.items) == 1 and isinstance(size.items[0], Num) and size.items[0].r == L
         ok_size = ok_size or (isinstance(size, Num) and size.length is None and size.r == L)
-        ctx.check(ok_size, 'C15.2', f"{tag}: one noise sample per signal sample (size = a.shape)", show(size, 80), e.loc(), fi.qualname, f"size:{tag}")
+        def unread(v_):
+            """constructs in a value that the evaluator carries along without interpreting them (reflection, opaque applications, ...)"""
+            return sorted({t_.head for t_ in walk_vals(v_) if isinstance(t_, Term) and (t_.head in ('apply', 'star', 'attr', 'getattr', 'item', 'unsupported')
+                                                                                        or t_.head.startswith(('lib:inspect.', 'lib:functools.')))}) \
+                if isinstance(v_, Val) else []
+        if not ok_size and unread(size):
+            ctx.unknown('C15.2', f"{tag}: one noise sample per signal sample (size = a.shape)", f"the size argument is built with {unread(size)}: not followed\n"
+                                                                                             f"{show(size, 120)}", e.loc(), fi.qualname, f"size:{tag}")
+        else:
+            ctx.check(ok_size, 'C15.2', f"{tag}: one noise sample per signal sample (size = a.shape)", show(size, 80), e.loc(), fi.qualname, f"size:{tag}")
         noise = term_as_num(t, True, 'ndarray')
         want_res = a.r + sym.subst(noise.r, {})
         ok_res = isinstance(res, Num) and res.length is not None and res.r == want_res
-        ctx.check(ok_res, 'C15.2', f"{tag}: result == a + noise", show(res, 200), fi.loc(), fi.qualname, f"result:{tag}")
+        if not ok_res and unread(res):
+            ctx.unknown('C15.2', f"{tag}: result == a + noise", f"the result is built with {unread(res)}: not followed\n{show(res, 160)}", fi.loc(), fi.qualname,
+                        f"result:{tag}")
+        else:
+            ctx.check(ok_res, 'C15.2', f"{tag}: result == a + noise", show(res, 200), fi.loc(), fi.qualname, f"result:{tag}")
         ctx.sample({'rule': 'C15.1', 'case': tag, 'scale': show(scale, 160)})
     ctx.floor('C15.1', n, 5, 'noise cases')
     aa = alias(ctx)
